@@ -10,9 +10,11 @@ depth 2   every tree  leaf | not leaf | leaf conn leaf  over the representative 
           (one per syntactic class and operator spelling) x every connective spelling
           (and && or ||, not !), rendered flat / minimally parenthesised / fully parenthesised /
           with every leaf parenthesised.
-depth 3   every tree of depth <= 3 over the leaves REPS3 (quick: REPS3Q), i.e.
-          not (leaf conn leaf) and  X conn Y  with X, Y of depth <= 2, all connective spellings,
-          rendered flat (re-associated by precedence!) / minimal / full.
+depth 3   quick: the three-leaf slice  (a c1 b) c2 c | a c1 (b c2 c)  over the leaves REPS3Q, every
+          connective spelling, rendered flat (re-associated by precedence!) / minimal / full.
+          thorough: every tree of depth <= 3 over the leaves REPS3, i.e. not (leaf conn leaf) and
+          X conn Y with X, Y of depth <= 2 (X, Y may be negated leaves), same renderings; plus the
+          three-leaf slice over the five leaves REPS3T.
 
 `not` is only ever applied to a leaf or to a parenthesised expression.
 The seed only rotates which alias of each keyword the depth >= 2 leaves are spelled with.
@@ -109,8 +111,9 @@ _REPS2 = [
     ("resid>=3", "3 <= {resid}"), ("index<20", "20 gt {index}"),
     ("name~C.*", "{name} =~ 'C.*'"),
 ]
-_REPS3 = [("protein", "{protein}"), ("name=CA", "{name} CA"), ("mass>13", "{mass} > 13"),
-          ("index<20", "{index} lt 20"), ("resid 1-3", "{resid} 1 to 3")]
+_REPS3T = [("protein", "{protein}"), ("name=CA", "{name} CA"), ("mass>13", "{mass} > 13"),
+           ("index<20", "{index} lt 20"), ("resid 1-3", "{resid} 1 to 3")]
+_REPS3 = _REPS3T[:4]
 _REPS3Q = [("protein", "{protein}"), ("mass>13", "{mass} > 13"), ("index<20", "{index} lt 20")]
 
 
@@ -123,7 +126,7 @@ def _spell(reps, seed):
 
 
 def reps(which, seed):
-    return _spell({"2": _REPS2, "3": _REPS3, "3q": _REPS3Q}[which], seed)
+    return _spell({"2": _REPS2, "3": _REPS3, "3q": _REPS3Q, "3t": _REPS3T}[which], seed)
 
 
 # ------------------------------------------------------------------------------------------------
@@ -161,6 +164,12 @@ def trees3(lv):
         out += [("not", sp, x) for x in pairs]
     out += [t for t in bins(t2, t2) if not (t[3][0] == "leaf" and t[4][0] == "leaf")]
     return out
+
+
+def triples(lv):
+    """the three-leaf slice of depth 3 without `not`:  (a c1 b) c2 c  and  a c1 (b c2 c)"""
+    pairs = bins(lv, lv)
+    return bins(pairs, lv) + bins(lv, pairs)
 
 
 def key(t):
